@@ -18,7 +18,7 @@ RULE = ("Hypothesis-generated 2D/3D plotfiles (as C01: scattered / non-monotone 
         "(binary_headers, binary_shape, binary_data, boxes_coordinates) x every limit_level in {None, 0..finest} x "
         "{fail, nofail}: validation must raise nothing and evaluate true. evaluations counts plotfiles; "
         "`constructions` in classes counts Taster constructions; plus the command line with 6 flag sets. "
-        "(F3, which made 6 option sets raise, is repaired; the exclusion hook stays for any future listed finding.) Non-trivial = >= 2 levels or a scattered / "
+        "A third of the constructions pass the level limit as a numpy integer. (F3, which made 6 option sets raise, is repaired; the exclusion hook stays for any future listed finding.) Non-trivial = >= 2 levels or a scattered / "
         "non-monotone layout (every plotfile runs all non-default option sets).")
 ASSUMPTIONS = ["in-process pool, identity schedule (C12 varies it)"]
 
